@@ -185,6 +185,23 @@ Fixpoint build (t : tree) (evs : list event) : res tree :=
 Definition tokenize (parse : str -> list event) (text name : str) : res tree :=
   build (init_tree name) (parse text).
 
+(* What an html.parser instance carries over from one feed() to the next: the unprocessed
+   tail of the input (rawdata) and the CDATA mode entered by an unclosed <script>/<style>. *)
+Record pstate : Type := mkpstate { p_rawdata : str; p_cdata : option str }.
+
+(* HTMLParser.__init__ -> reset() *)
+Definition fresh_pstate : pstate := mkpstate [] None.
+
+(* One call tokenize_html(text, name):  parser = HtmlToAst(name); return parser.feed(text).
+   A new instance per call: fresh parser state, fresh Tree.  [feed] is html.parser's goahead:
+   the events emitted for a text from a given state, and the state left behind. *)
+Definition tokenize_call (feed : pstate -> str -> list event * pstate) (call : str * str) : res tree :=
+  build (init_tree (snd call)) (fst (feed fresh_pstate (fst call))).
+
+(* a sequence of calls in one process *)
+Definition session (feed : pstate -> str -> list event * pstate) (calls : list (str * str)) : list (res tree) :=
+  map (tokenize_call feed) calls.
+
 (* ------------------------------------------------------------------ render *)
 
 (* Attribute.__str__ *)
@@ -438,8 +455,13 @@ Inductive html : Type :=
 | HChar (s : str)                                 (* &#s;   *)
 | HEntity (s : str).                              (* &s;    *)
 
+(* serialisation of a double-quoted attribute value: & and the double quote are written as references *)
+Definition spec_escape (v : str) : str :=
+  flat_map (fun c => if N.eqb c 38 then [38; 97; 109; 112; 59]
+                     else if N.eqb c 34 then [38; 113; 117; 111; 116; 59] else [c]) v.
+
 Definition print_attr (kv : str * option str) : str :=
-  [32] ++ fst kv ++ match snd kv with None => [] | Some v => [61; 34] ++ v ++ [34] end.
+  [32] ++ fst kv ++ match snd kv with None => [] | Some v => [61; 34] ++ spec_escape v ++ [34] end.
 
 Definition print_attrs (a : attrs) : str := concat (map print_attr a).
 
@@ -501,9 +523,8 @@ Definition wf_name (n : str) : bool :=
 
 Definition no_char (c : N) (s : str) : bool := negb (mem_N c s).
 
-(* attribute value: double-quoted, containing neither a double quote nor an ampersand; or absent *)
-Definition wf_value (v : option str) : bool :=
-  match v with None => true | Some s => no_char 34 s && no_char 38 s end.
+(* attribute value: any string (printed double-quoted with & and the double quote as references), or absent *)
+Definition wf_value (v : option str) : bool := true.
 
 Fixpoint wf_attrs (a : attrs) : bool :=
   match a with
